@@ -43,7 +43,11 @@ SPEC = dict(
           "For EVERY accepted assertion in every entry (Decode, NewDecoder, stressed and chunked stream decoders) the driver records "
           "asserts.Encode of the returned assertion (checked to be Signature() content + blank line + signature) and whether "
           "asserts.SignatureCheck against the signing key succeeds; the monitor requires the re-encoding to equal the original encoding "
-          "(one-shot Decode: the input bytes) and the signature to verify. Fixed body-length streams (negative, signed, zero-padded, overflowing, above the maximum: regression cases of the repaired panic). Every call runs under panic recovery and a 20 s time bound. Non-trivial = accepted "
+          "(one-shot Decode: the input bytes) and the signature to verify. encstream: streams of 1..5 assertions written through ONE real "
+          "Encoder, each handed over by Encode, WriteEncoded (with / without the final newline) or WriteContentSignature (signature with / "
+          "without its final newline): all 25 ordered pairs of the five ways, plus random longer streams, half through stressed buffers and "
+          "chopped readers; the written stream is compared with the Encoder model (encode_stream) and decoding must give exactly the "
+          "originals, then EOF. Fixed body-length streams (negative, signed, zero-padded, overflowing, above the maximum: regression cases of the repaired panic). Every call runs under panic recovery and a 20 s time bound. Non-trivial = accepted "
           "parse / successful round trip / at least one assertion decoded from a stream."),
     exhaustive=dict(quick=True, thorough=True),
     trusted_base=[
@@ -53,7 +57,7 @@ SPEC = dict(
         "assemble's per-type checks, signing and RSA are not modelled: the model stops where Decode calls assemble; an accepted assertion must carry the model's headers/body/signature, a rejection by assemble is allowed",
     ],
     assumptions=[
-        "PARTIAL: proved for all inputs on the model: header text round trip for every normalised tree of any depth (C20_roundtrip, C20_roundtrip_bytes), line split/join inverses, totality of parseHeaders (no out-of-range index, termination within 2*lines+1 steps: C20_no_panic), readUntil/Decode size bounds (C20_read_until_bound, C20_limits), that the overlap kept between two rounds of readUntil loses no delimiter (C20_read_until_overlap: the Go loop = whole-buffer search for every input), and that Decoder.Decode never panics on any stream (C20_stream_never_panics, C20_stream_loop_never_panics; the negative body-length panic this check found is repaired in /repo commit 94ffaa1). the byte-level round trip of a whole serialized assertion decode_parts (encode_assertion h body sig) = Ok (h, body, sig) for every normalised h, arbitrary body and any signature text without blank line / leading newline (C20_assertion_roundtrip), and that a bufio-style Peek returns the same bytes for every chunking of the reader (C20_peek_chunking_independent, C20_peek_is_flat_peek). The model carries the signed content of each decoded assertion (p_content); C20_reencode_identity: Encode of the one-shot decoded assertion is the original byte string. NOT proved, only monitored on the implementation: the stream version of the round trip (Decoder.Decode over the concatenation of k encodings returns exactly those k assertions then EOF; exercised by the chunk cases with delimiters on every read boundary), identical revision/format (derived from headers by assemble), absence of hangs of the real decoder (20 s bound per call), independence of the stream decoder's result from the reader's chunking (monitored with chopped readers).",
+        "PARTIAL: proved for all inputs on the model: header text round trip for every normalised tree of any depth (C20_roundtrip, C20_roundtrip_bytes), line split/join inverses, totality of parseHeaders (no out-of-range index, termination within 2*lines+1 steps: C20_no_panic), readUntil/Decode size bounds (C20_read_until_bound, C20_limits), that the overlap kept between two rounds of readUntil loses no delimiter (C20_read_until_overlap: the Go loop = whole-buffer search for every input), and that Decoder.Decode never panics on any stream (C20_stream_never_panics, C20_stream_loop_never_panics; the negative body-length panic this check found is repaired in /repo commit 94ffaa1). the byte-level round trip of a whole serialized assertion decode_parts (encode_assertion h body sig) = Ok (h, body, sig) for every normalised h, arbitrary body and any signature text without blank line / leading newline (C20_assertion_roundtrip), and that a bufio-style Peek returns the same bytes for every chunking of the reader (C20_peek_chunking_independent, C20_peek_is_flat_peek). The model carries the signed content of each decoded assertion (p_content); C20_reencode_identity: Encode of the one-shot decoded assertion is the original byte string. The stream round trip is proved: C20_stream_roundtrip (stream_all over encode_stream of any list of well-formed assertions, each handed to the Encoder complete or without its final newline, returns exactly those assertions then EOF, for every limits record whose doubling loop can reach each component - C20_limits_default for the production constants - by induction on the list, using C20_read_until_finds). NOT proved, only monitored on the implementation: identical revision/format (derived from headers by assemble), absence of hangs of the real decoder (20 s bound per call), independence of the stream decoder's result from the reader's chunking (monitored with chopped readers).",
         "normalised header tree = strings, non-empty lists, non-empty maps with valid distinct keys (what parseHeaders can produce); assembleAndSign also accepts trees outside this form, whose text form drops empty lists/maps or cannot be parsed (C20_roundtrip_any_tree_refuted) - treated as outside the property's `valid assertion`",
         "Go maps are represented by their key-sorted entry list",
         "the C20_limits bound for the header text is the readUntil bound max(initial buffer, limit); with the production constants (4096, 128 KiB, 2 MiB, 128 KiB) that is the limit itself",
